@@ -64,6 +64,13 @@ Theorem C02e_lnames_kwfree_meaning : forall (L : lfmt) (v : lnarsese),
 Proof. exact lnames_kwfree_meaning. Qed.
 Print Assumptions C02e_lnames_kwfree_meaning.
 
+(* on the subdomain, vocab_ok's name clause is "non-empty string of identifier characters": a keyword-free name
+   contains no keyword *)
+Theorem C02e_name_ok_kwfree : forall (L : lfmt) (ia : N -> bool) (n : str), lkwfree_name L n = true ->
+  LexSpec.name_ok L ia n = LexParser.nonempty n && forallb (ident L ia) n.
+Proof. exact name_ok_kwfree. Qed.
+Print Assumptions C02e_name_ok_kwfree.
+
 (* Han: the 56 keyword characters *)
 Theorem C02e_lkwfree_name_han : forall n : str,
   lkwfree_name LEX_HAN n =
@@ -135,6 +142,22 @@ Theorem C02e_replaced_checks :
   lex_kwfree_term_ok LEX_HAN = true /\ lex_kwfree_atoms_ok LEX_HAN = true /\ lex_kw_sub FORMAT_HAN LEX_HAN = true.
 Proof. exact han_replaced_checks. Qed.
 Print Assumptions C02e_replaced_checks.
+
+(* the checks discriminate: a prefix dictionary with 某 and 某任 fails the term check; with Han's bracket-less stamp
+   opened by 某 (an atom prefix) instead of 发生在, every table check of Props/C02.v still passes but the stamp clause
+   of lex_kwfree_atoms_ok fails -- and the bare atom 某12 (in the vocabulary, keyword-free name) does NOT survive the
+   round trip: the clause is needed; formats of different names fail the keyword-character inclusion *)
+Theorem C02e_checks_discriminate :
+  lex_kwfree_term_ok ex_han_bad_prefixes = false /\
+  (let x := NTerm (LAtom [26576]%N [49; 50]%N) in
+   lex_kwfree_atoms_ok ex_han_bad_stamp = false /\ lex_kwfree_term_ok ex_han_bad_stamp = true /\
+   lex_c02_ok ex_han_bad_stamp std_alnum = true /\
+   vocab_ok ex_han_bad_stamp std_alnum x = true /\ lnames_kwfree ex_han_bad_stamp x = true /\
+   lex_fmt ex_han_bad_stamp x = [26576; 49; 50]%N /\
+   lex_parse std_alnum ex_han_bad_stamp (lex_fmt ex_han_bad_stamp x) = LErr) /\
+  lex_kw_sub FORMAT_ASCII LEX_HAN = false /\ lex_kw_sub FORMAT_HAN LEX_ASCII = false.
+Proof. exact kw_checks_discriminate. Qed.
+Print Assumptions C02e_checks_discriminate.
 
 (* ---- format-generic: the two conditions of C02_roundtrip from keyword-freeness; the round trip ---- *)
 Theorem C02e_atom_unamb_of_kwfree : forall L : lfmt, lex_kwfree_term_ok L = true ->
